@@ -89,10 +89,18 @@ def can_be_empty(e, rules):
     return can_be_empty(e[1], rules)
 
 
-def gen_grammar(rng):
+# groups of terminals that are only interesting together (or whose interesting strings are long): every other grammar is
+# built around one of them, in rotation, so that each group is exercised in every run
+FOCUS = [["N"], ["E", "E_1", "E_2"], ["H", "H_1", "H_2"], ["A", "A_1"], ["B", "B_0"], ["E", "E_I"], ["LIT", "RE"], ["O"], ["P"], ["Q"],
+         ["K"], ["L"], ["M"], ["I", "J"], ["F", "G"], ["B", "I"], ["H", "I"], ["E", "N"]]
+
+
+def gen_grammar(rng, focus=None):
     nterm = rng.randint(2, 4)
     terms = rng.sample(TERMS, nterm)
     byname = {t[0]: t for t in TERMS}
+    if focus is not None:
+        terms = [byname[nm] for nm in focus] + [t for t in rng.sample(TERMS, 1) if t[0] not in focus]
     for t in list(terms):  # a terminal and its numbered namesake together
         for rel_name in RELATED.get(t[0], []):
             o = byname[rel_name]
@@ -101,6 +109,11 @@ def gen_grammar(rng):
     names = [t[0] for t in terms]
     nrules = rng.randint(1, 3)
     rules = [rand_expr(rng, rng.randint(1, 2), names, i, nrules) for i in range(nrules)]
+    if focus is not None:
+        # the focus terminals are used together in the start rule: in sequence, or as alternatives followed by the first one
+        fs_ = [("t", nm) for nm in focus]
+        core = ("seq", fs_) if (len(fs_) > 1 and rng.random() < 0.6) else (("seq", [("alt", fs_), fs_[0]]) if len(fs_) > 1 else ("seq", [fs_[0], ("opt", fs_[0])]))
+        rules[0] = ("alt", [core, rules[0]]) if rng.random() < 0.5 else core
     ignore = rng.random() < 0.4
     lines = ["start: " + show(rules[0])] + [f"r{i}: " + show(rules[i]) for i in range(1, nrules)]
     for nm, src, _ in terms:
@@ -235,8 +248,8 @@ def run(ctx):
         ctx.prove("props/C19.v")
     else:
         ctx.obligation("coq-build(C19)", False, out[-3000:])
-    n = 40 if quick else 300
-    gs = [gen_grammar(ctx.rng) for _ in range(n)]
+    n = 60 if quick else 300
+    gs = [gen_grammar(ctx.rng, focus=(FOCUS[(k // 2) % len(FOCUS)] if k % 2 == 0 else None)) for k in range(n)]
     jobs, plan = [], []
     for k, G in enumerate(gs):
         rel = [c for c in ALPHA if any(re.search(re.escape(c), v) or re.fullmatch(v, c) for v in G["terms"].values())]
@@ -278,7 +291,7 @@ def run(ctx):
         trunc = trunc + mixes
         rec = "right" if k % 2 == 0 else "left"
         q_ = {"op": "lark", "grammar": G["text"], "chars": cands, "bytes": bts + trunc, "recursion": rec, "timeout": 120}
-        if k % 3 == 1:
+        if k % 3 == 1 or (k % 2 == 0 and ("I" in G["terms"] or "N" in G["terms"])):
             # a caller-supplied character set (the same characters as the default one): ONE set object is handed to every
             # terminal's conversion, first for the character-level and then for the byte-level grammar
             import string
